@@ -333,6 +333,8 @@ pub fn boundary_durations() -> Vec<(&'static str, Duration)> {
         ("30y", Duration::from_secs(30 * YEAR)),
         ("7000y", Duration::from_secs(7000 * YEAR)),
         ("9000y", Duration::from_secs(9000 * YEAR)),
+        ("1e12 s", Duration::from_secs(1_000_000_000_000)),
+        ("2^40 s", Duration::from_secs(1 << 40)),
         ("3e8y", Duration::from_secs(300_000_000 * YEAR)),
         ("i64::MAX s", Duration::from_secs(i64::MAX as u64)),
         ("u64::MAX s", Duration::new(u64::MAX, 999_999_999)),
@@ -788,10 +790,26 @@ pub fn run_c16(tier: Tier) -> i32 {
             let mut st = S16::default();
             rt.block_on(tokio::task::unconstrained(async {
                 let now = tokio::time::Instant::now().into_std();
+                let began = std::time::Instant::now();
                 for j in &regime_jobs {
                     match *j {
                         Job::Boundary(codec, r) if r == regime => boundary_server_cases(&mut st, codec, r),
                         Job::Client(codec, r, mutate) if r == regime => client_cases(&mut st, codec, r, now, mutate, all_values),
+                        _ => {}
+                    }
+                }
+                // the same boundary messages once more in a process that has been rendering deadlines
+                // for more than a second of real time (span fields are rendered against the wall
+                // clock; seeded change C16h cached "how far away is the year 9999" at first use)
+                let age = began.elapsed();
+                if age < Duration::from_millis(1200) {
+                    std::thread::sleep(Duration::from_millis(1200) - age);
+                }
+                let now = tokio::time::Instant::now().into_std();
+                for j in &regime_jobs {
+                    match *j {
+                        Job::Boundary(codec, r) if r == regime => boundary_server_cases(&mut st, codec, r),
+                        Job::Client(codec, r, _) if r == regime => client_cases(&mut st, codec, r, now, false, false),
                         _ => {}
                     }
                 }
